@@ -27,6 +27,7 @@ INVS = ["GenWF", "SpecRoundTrip", "Closed", "DeprecatedFilter", "Sensitive"]
 
 GROUP = {
     "gen": "data",                      # introspection.Data produced by the Generator
+    "gen.unnormalized": "data.unnormalized",  # Generator on a document with type extensions, before Schema.Normalize()
     "roundtrip": "roundtrip",           # SDL of the JsonConverter's document
     "echo": "harness",                  # self check of the driver's SDL printer
     "q.schema.var-true": "engine.var-true",   # includeDeprecated passed as a variable with value true
@@ -60,6 +61,9 @@ def change_sig(m):
 
 
 def key_of(view, m):
+    if view == "gen.unnormalized":
+        # one root cause (the Generator is not extension-aware); the same Generator on merged documents is judged by view gen
+        return "data.unnormalized:extensions-not-merged"
     s = change_sig(m)
     if s == "raw-escapes":
         # the implementation's text is the expected one with the quote escapes of the SDL source left in: one defect, wherever it shows
@@ -73,6 +77,7 @@ def all_tags(s):
     out = []
     for t in s["types"]:
         out.append(["t", t["name"], t.get("tags", [])])
+        out.append(["x", t["name"], ["x"] * t.get("ext", 0)])
         for f in t["fields"]:
             out.append(["f", t["name"], f["name"], f["tags"]])
             for a in f["args"]:
@@ -81,6 +86,8 @@ def all_tags(s):
             out.append(["i", t["name"], iv["name"], iv.get("tags", [])])
         for v in t["values"]:
             out.append(["v", t["name"], v["name"], v.get("tags", [])])
+    out.append(["s", s.get("stags", [])])
+    out.append(["xs", ["x"] if s.get("xroots") else []])
     return sorted(x for x in out if x[-1])
 
 
@@ -110,6 +117,8 @@ def features(s):
             out.add("interface-implements-interface")
         if t["url"]:
             out.add("specifiedBy")
+        if t.get("ext"):
+            out.add("extension:" + t["kind"])
         if t.get("tags"):
             out.add("applied-directive:" + t["kind"])
             if t["kind"] == "SCALAR":
@@ -158,6 +167,10 @@ def features(s):
         out.add("directive" + ("-repeatable" if d["rep"] else ""))
     if s["query"] != "Query" or s["mutation"] not in ("", "Mutation") or s["subscription"] not in ("", "Subscription"):
         out.add("custom-root-names")
+    if s.get("xroots"):
+        out.add("extend-schema")
+    if s.get("stags"):
+        out.add("applied-directive:SCHEMA")
     roots = (s["query"], s["mutation"], s["subscription"])
     for t in s["types"]:
         if t["name"] in ("Query", "Mutation", "Subscription") and t["name"] not in roots:
@@ -170,7 +183,7 @@ def features(s):
 def generate(ctx, quick):
     """Model-check + generate. Returns list of (origin, case) with case = {"id","s","exp","n"}."""
     tier = "q" if quick else "t"
-    jobs = [("bfs-" + c, "MC_C17_%s_%s.cfg" % (c, tier)) for c in "ABCDEF"]
+    jobs = [("bfs-" + c, "MC_C17_%s_%s.cfg" % (c, tier)) for c in "ABCDEFG"]
     out = {}
 
     nsim = 12 if quick else 300
@@ -182,7 +195,7 @@ def generate(ctx, quick):
                                 deadlock=False, tag="sim", heap="6g", count=False)
         return tag, ctx.tlc("core", "MC_C17", cfg, workers=4, timeout=2400, deadlock=False, tag=tag, heap="6g", count=False)
 
-    with concurrent.futures.ThreadPoolExecutor(max_workers=7) as ex:
+    with concurrent.futures.ThreadPoolExecutor(max_workers=8) as ex:
         for tag, r in ex.map(one, jobs + [("sim", "Gen_C17_sim.cfg")]):
             if not r.ok:
                 print(r.out[-4000:])
@@ -215,11 +228,11 @@ def generate(ctx, quick):
 def select(cases, quick, rng):
     """quick: every BFS state of the first levels + a seed-selected sample of the rest; thorough: everything up to caps."""
     if quick:
-        full_upto = {"bfs-A": 1, "bfs-B": 1, "bfs-C": 1, "bfs-D": 0, "bfs-E": 0, "bfs-F": 0}
-        cap_rest = {"bfs-A": 70, "bfs-B": 80, "bfs-C": 60, "bfs-D": 50, "bfs-E": 30, "bfs-F": 10, "sim": 60}
+        full_upto = {"bfs-A": 1, "bfs-B": 1, "bfs-C": 1, "bfs-D": 0, "bfs-E": 0, "bfs-F": 0, "bfs-G": 0}
+        cap_rest = {"bfs-A": 70, "bfs-B": 80, "bfs-C": 60, "bfs-D": 50, "bfs-E": 30, "bfs-F": 10, "bfs-G": 40, "sim": 60}
     else:
         full_upto = {"bfs-A": 3, "bfs-B": 2, "bfs-C": 2, "bfs-D": 6}
-        cap_rest = {"bfs-A": 500, "bfs-B": 800, "bfs-C": 500, "bfs-D": 200, "bfs-E": 400, "bfs-F": 100, "sim": 800}
+        cap_rest = {"bfs-A": 500, "bfs-B": 800, "bfs-C": 500, "bfs-D": 200, "bfs-E": 400, "bfs-F": 100, "bfs-G": 600, "sim": 800}
     chosen, rest = [], {}
     for tag, c in cases:
         if tag in full_upto and c["n"] <= full_upto[tag]:
@@ -407,7 +420,7 @@ def run(ctx):
         for ft in features(c["s"]):
             feats[ft] = feats.get(ft, 0) + 1
     samples = []
-    for tag in ("bfs-A", "bfs-B", "bfs-C", "bfs-D", "bfs-E", "bfs-F", "sim"):
+    for tag in ("bfs-A", "bfs-B", "bfs-C", "bfs-D", "bfs-E", "bfs-F", "bfs-G", "sim"):
         cs = [c for t, c in cases_sel if t == tag]
         if cs:
             c = max(cs, key=lambda c: len(json.dumps(c["s"])))
